@@ -8,10 +8,15 @@ LEAN_PROPS = ["FcpptProofs.Props.C08"]
 HARNESS = {"src": "harness/c08.cpp"}
 TIE = ("hand-written model (FcpptModel/Model/C08.lean) + differential correspondence against the real grid templates, "
        "instantiated for N in {1,2,3} with std::size_t (u) and long (s) positions and object<long,N>")
-RULE = ("digest ops enumerate a sub-domain on both sides: offs/ats (all positions in a margin of 2 around the grid), ranges (all sup in a "
+RULE = ("digest ops enumerate a sub-domain on both sides: offs/ats (all positions in a margin of 3 around the grid), ranges (all sup in a "
         "window for one min), nexts (all current positions in a window for one (min,sup)), refsubs/clamps (all signed positions from -1 "
-        "to extent+1); exhaustive over N in {1,2,3} and all sizes with extents 0..4 (thorough; quick reduces N=3 windows, see batch notes); "
-        "single ops (mk, mkc, all, refall, fill, map, resize, apply) over all sizes; random larger sizes (extents to 9) sampled. "
+        "to extent+1), interps (all integral parts with every neighbour in range x all quarter fractions); exhaustive over N in {1,2,3} and all "
+        "sizes with extents 0..4 in both tiers (thorough: refsubs with margin 2 for N<=2, more sampled ops); "
+        "single ops (mk, mkc, all, refall, fill, out, map, resize, apply, rows, cmp) over all sizes / pairs of sizes; regs = every legal history of "
+        "<= 3 special-member calls over three objects; random larger sizes (extents to 9) sampled. The harness additionally demands (result line "
+        "replaced by a *-mismatch token): const = mutable ranges / at_optional, lvalue = rvalue overloads on a cell type with a visible move "
+        "(each source cell moved exactly once, lvalue sources untouched), pos_range::size() = range_size, iterator protocol (post-increment, "
+        "copies, equality), call counts / call order of the user functions, same-object operands. "
         "weight = number of enumerated inputs of an op; an op is non-trivial unless it visits/produces no cell (n=0 / cells=-).")
 ASSUMPTIONS = [
     "no wrap-around: std::size_t / long arithmetic is modelled by Int (all exercised quantities are far below 2^31)",
@@ -177,14 +182,15 @@ def cmp_cells(n):
 
 def batches(rng, tier):
     thorough = tier == "thorough"
+    wide = True  # the cheap batches run their widest windows in both tiers (quick has the time)
     alld = {n: dims(n) for n in (1, 2, 3)}
     everyd = alld[1] + alld[2] + alld[3]
 
-    bigd = (dims(1, range(0, 7)) + dims(2, range(0, 7))) if thorough else []
-    mg = 3 if thorough else 2
+    bigd = (dims(1, range(0, 7)) + dims(2, range(0, 7))) if wide else []
+    mg = 3 if wide else 2
     # ---- offset / in_range_dim / contents: every size, every position in a margin, both instantiations
     ops = [f"offs {t} {L(d)} {mg}" for t in "us" for d in everyd + bigd]
-    yield Batch("offset-all-sizes", ops, exhaustive=True, note=f"offset, in_range_dim, contents: all sizes 0..4^N (thorough: also 0..6 for N<=2), all positions with margin {mg} (signed: also below 0)")
+    yield Batch("offset-all-sizes", ops, exhaustive=True, note=f"offset, in_range_dim, contents: all sizes 0..4^N and 0..6 for N<=2, all positions with margin {mg} (signed: also below 0)")
 
     # ---- std::size_t wrap-around: extents and positions around 2^16, 2^31, 2^32, 2^62, 2^63 (model: arithmetic mod 2^64)
     big = [1, 2, 3, 65536, 2 ** 31, 2 ** 32 - 1, 2 ** 32, 2 ** 32 + 1, 2 ** 62, 2 ** 63 - 1]
@@ -214,44 +220,35 @@ def batches(rng, tier):
     ops = []
     for n in (1, 2, 3):
         if n < 3:
-            wu, ws = ((0, 8), (-3, 5)) if thorough else ((0, 6), (-2, 4))
+            wu, ws = ((0, 8), (-3, 5)) if wide else ((0, 6), (-2, 4))
         else:
-            wu, ws = ((0, 6), (-3, 3)) if thorough else ((0, 5), (-2, 3))
+            wu, ws = ((0, 6), (-3, 3)) if wide else ((0, 5), (-2, 3))
         for t, (lo, hi) in (("u", wu), ("s", ws)):
             ops += [f"ranges {t} {L(mn)} {lo} {hi}" for mn in tuples([lo] * n, [hi + 1] * n)]
     yield Batch("pos-range-all-min-sup", ops, exhaustive=True,
                 note="min_less_sup, range_dim, range_size = size(), end_position, visited positions for every (min,sup) in the window "
-                     "(quick: N<=2 u 0..6, s -2..4, N=3 u 0..5, s -2..3; thorough: N<=2 u 0..8, s -3..5, N=3 u 0..6, s -3..3) - empty and inverted ranges included")
+                     "(N<=2 u 0..8, s -3..5, N=3 u 0..6, s -3..3) - empty and inverted ranges included; iterator protocol and accessors demanded")
 
     # ---- next_position on arbitrary current positions (also outside the range: the carry test at every index)
     ops = []
     for n in (1, 2, 3):
-        w = (5 if thorough else 4) if n < 3 else (4 if thorough else 3)
+        w = (5 if wide else 4) if n < 3 else (4 if wide else 3)
         for t, lo in (("u", 0), ("s", -1)):
             hi = lo + w
             prs = [(mn, sp) for mn in tuples([lo] * n, [hi + 1] * n) for sp in tuples([lo] * n, [hi + 1] * n)]
             ops += [f"nexts {t} {L(mn)} {L(sp)} {lo} {hi}" for mn, sp in prs]
-    yield Batch("next-position-window", ops, exhaustive=True, note="next_position for every current/min/sup in a window (quick: 5 values per coordinate for N<=2, 4 for N=3; thorough: 6 and 5)")
+    yield Batch("next-position-window", ops, exhaustive=True, note="next_position (model: the literal fold nextFold) for every current/min/sup in a window (6 values per coordinate for N<=2, 5 for N=3), current also outside the box")
 
     # ---- sub-ranges of a grid through the clamp helpers: every size, every signed (min, sup) from -1 to extent+1
     ops = []
     for n in (1, 2, 3):
-        ds = alld[n] if (n < 3 or thorough) else dims(3, [0, 1, 2, 3])
+        ds = alld[n]
         m = 2 if (thorough and n < 3) else 1
         for i, d in enumerate(ds):
             ops += [f"refsubs {L(d)} {i % 3} {L(mn)} {m}" for mn in tuples([-m] * n, [x + m + 1 for x in d])]
     yield Batch("sub-range-clamped-all", ops, exhaustive=True,
                 note="pos_ref_range(grid, clamped_min smin, clamped_sup_signed ssup) for all signed smin, ssup in [-1, extent+1]^N on every size "
-                     "(quick: N=3 only extents 0..3, the rest of N=3 is sampled below; thorough: margin 2 for N<=2)")
-    if not thorough:
-        r = rng.fork("refsub3")
-        ops = []
-        for _ in range(500):
-            d = [r.range(0, 4) for _ in range(3)]
-            mn = [r.range(-1, x + 1) for x in d]
-            ops.append(f"refsubs {L(d)} {r.below(3)} {L(mn)} 1")
-        yield Batch("sub-range-clamped-n3-sampled", ops, note="N=3 sizes with extents 0..4, random smin, all ssup")
-
+                     "(thorough: margin 2 for N<=2): positions and cells read, const = mutable range, and the cells after writing through the references")
     # ---- clamp helpers on every size
     ops = [f"clamps {L(d)} {mg}" for d in everyd + bigd]
     yield Batch("clamp-all-sizes", ops, exhaustive=True, note=f"clamped_min, clamped_sup_signed, clamped_sup for all signed positions in [-{mg}, extent+{mg}]^N")
@@ -296,14 +293,14 @@ def batches(rng, tier):
             ops.append(f"apply {L(a)} {r.below(4)} {L(other())} {r.below(4)} {L(other())} {r.below(4)}")
     yield Batch("apply-sampled", ops, note="2 and 3 grids, sizes equal / differing in one extent / permuted")
 
-    # ---- interpolate: every size with extents 2..4 (thorough N<=2: 2..6), every integral part with all neighbours in range, quarters
+    # ---- interpolate: every size with extents 2..4 (N<=2: 2..6), every integral part with all neighbours in range, quarters
     ops = []
     for n in (1, 2, 3):
-        exts = [2, 3, 4, 5, 6] if (thorough and n < 3) else [2, 3, 4]
+        exts = [2, 3, 4, 5, 6] if (wide and n < 3) else [2, 3, 4]
         ops += [f"interps {L(d)} {i % 4}" for i, d in enumerate(dims(n, exts))]
     yield Batch("interpolate-all", ops, exhaustive=True,
                 note="interpolate with an argument-recording interpolator at every position fl + q/4, 0 <= fl_i <= extent-2, q in {0,1,2,3}^N, "
-                     "every size with extents 2..4 (thorough: 2..6 for N<=2)")
+                     "every size with extents 2..4 (2..6 for N<=2)")
 
     # ---- static_row constructor (two-dimensional only): every row length and row count 1..4
     ops = [f"rows {w} {h} {k}" for w in range(1, 5) for h in range(1, 5) for k in (0, 3)]
@@ -323,7 +320,7 @@ def batches(rng, tier):
     yield Batch("special-members-all-histories-2", ops, exhaustive=True,
                 note="three objects of different sizes (same content, different shape included), every legal history of <= 2 calls out of "
                      "copy ctor, move ctor, copy assignment, move assignment, member swap, free swap over all (dst, src) incl. dst = src")
-    if thorough:
+    if wide:
         ops = [f"regs {regcfg[2]} {'.'.join(pr)}" for pr in reg_programs(3)]
         yield Batch("special-members-all-histories-3", ops, exhaustive=True, note="every legal history of exactly 3 calls on the 2-D configuration")
     r = rng.fork("regs")
